@@ -1,10 +1,21 @@
 """Generators: structured, mostly valid inputs built from the repo's own vocabulary, plus a
 malformed stream.  Every random choice comes from one random.Random seeded from VERIF_SEED."""
 import json, random
+import collide
 from core import hx, World
 
 NAMES = ['TestZ/v01', 'TestZ/v1', 'TestN/case_9', 'TestN/case_10', 'TestN/case_100', 'TestI/index[0]', 'TestA', 'TestAB', 'TestX/[a]', 'TestV2', 'TestA/case_2', 'TestR/ratio/1.25', 'TestA/x', 'TestA/x/y', 'TestA/x#01', 'TestB', 'TestB/sub_case', 'Test1', 'Test01',
          'Test10', 'TestZ/a/b/c', 'TestLong/with_some-chars.and:colon', 'TestÜnicode/ß', 'TestA/x_-_1', 'Test_x']
+# punctuation, spaces and non-ASCII in (sub)test names: everything a table-driven test named after a route, a
+# path, a key or a sentence produces.  File systems other than the one the tests run on reserve some of
+# these (`\\ : * ? " < > |`), shells and regexps others; for go-snaps they are ordinary name bytes.  Pairs
+# differing only by such a character versus `_` are included (they must stay two locations).  `%` is
+# kept apart (PCT_NAMES, known finding D12).
+PUNCT_NAMES = ['TestQ/GET_/users?page=2', 'TestQ/GET_/users_page=2', 'TestW/C:\\dir\\file.txt', 'TestW/C__dir_file.txt', 'TestS/a*b', 'TestS/a_b',
+               'TestS/say_"hi"', 'TestL/<nil>', 'TestL/_nil_', 'TestP/a|b', 'TestK/key:value', 'TestK/key_value', 'TestSp/with space', 'TestSp/with_space',
+               'TestE/emoji_\U0001F600', 'TestT/a~b', "TestT/it's", 'TestC/a,b;c', 'TestEq/k=v&x=1', 'TestPl/a+b', 'TestAt/user@host',
+               'TestBr/{x}', 'TestPa/(x)', 'TestD/$HOME', 'TestBt/`cmd`', 'TestEx/wow!', 'TestCa/a^b', 'TestJp/\u65e5\u672c\u8a9e', 'TestNb/a\u00a0b',
+               'TestCo/e\u0301', 'TestCo/\u00e9']
 PCT_NAMES = ['TestP/100%_done', 'TestQ/%d', 'TestR/50%s']
 UNRECOGNISED = ['FuzzX/seed#0', 'BenchmarkY', 'ExampleZ']
 
@@ -42,6 +53,10 @@ class Gen:
             return b'ends with cr\r'
         if k < 0.55 and 'long' in allow:
             return b'L' * r.choice([70000, 300000])
+        if k < 0.58:
+            # a line with a twin that is equal to it under a hash / prefix / case / whitespace /
+            # normalisation shortcut (collide.py); suites.mutate_text swaps it for the twin
+            return collide.some_line(r)
         words = ['50% done', 'a%20b', '100%', '%s %d %v', 'foo', 'bar', 'baz', 'hello world', '{', '}', '"a": 1,', 'key: value', '- item', '# comment', 'x' * r.randint(1, 40),
                  'int(5)', 'map[string]int{', '    "k": 1,', '}', '\u00e9\u00e8', 'two  spaces']
         return r.choice(words).encode()
@@ -79,6 +94,8 @@ class Gen:
         pool = list(NAMES)
         if 'pct' in allow:
             pool += PCT_NAMES
+        if 'punct' in allow:
+            pool += PUNCT_NAMES
         if 'unrec' in allow:
             pool += UNRECOGNISED
         self.r.shuffle(pool)
